@@ -28,4 +28,10 @@ TEXTS = {
         "note": "trusted: as C14; byte storage of PhysicalFS is the host file system (assumption, compared by the stream); overlay copy-up is covered by the stream and by the overlay model's correspondence, the adapter-level theorem is in C09",
         "technique": "Lean 4 proof over hand-written model + differential correspondence check",
     },
+    "C08": {
+        "level": "Lean 4 theorems, compositional and for arbitrary inner layers: if every method of the upper layer's filesystem and the four observer methods of all other layers preserve a world invariant I, then every method of the overlay (and every write handle it returns) preserves I — the overlay calls nothing but exists/metadata/read_dir/open_file on layers other than the first; its own observers preserve whatever the layers' observers preserve (no mutating call at all). Instances proved: every lower leaf keeps its entries (type, bytes, creation/modification time) under all overlay methods for any number of layers, also below an altroot; the recorder log of a lower layer never gains a mutating call. Tied to the code by the record stream (recording wrappers around every layer of the real OverlayFS: results, snapshots, multiset of recorded calls vs model; PROP: no mutating method recorded on a lower layer, none during observers, deep lower-layer snapshots unchanged).",
+        "design_ref": "DESIGN.md §6 C08",
+        "note": "trusted: Lean kernel + audited axioms; hand-written model of overlay.rs and path.rs tied by the record stream (bounded differential execution); access-time stamping by MemoryFS::open_file inside a lower layer is not a call of the overlay and is ignored (documented reading)",
+        "technique": "Lean 4 proof (invariant-preservation calculus) over hand-written model + differential correspondence check",
+    },
 }
